@@ -36,7 +36,7 @@ def rand_sm(rng, negative=False):
             props[3][1] = rng.choice(["2.000=-0.500", "2.000=-0.500", "4=-0.5,4=0.25", "1=0.25,\n4.000=-0.5,\n4.001=0.25"])      # a negative value followed by another row on the same beat / tick
     for key, vals in (("DELAYS", ["", "3.000=0.300"]), ("WARPS", ["", "5.000=1.000"]), ("ANIMATIONS", ["a"]), ("BGCHANGES", ["b"]), ("ORIGIN", ["x"]),
                       ("LABELS", ["0=y"]), ("ATTACKS", ["a:b", None, ""]), ("DISPLAYBPM", ["1:2", "*", None]), ("ARTIST", ["猫"]), ("EXTRA KEY", ["v", None]),
-                      ("SUBTITLE", [None, ""])):       # None: a key-only property (#ATTACKS;), which an SM file may hold for any key
+                      ("SUBTITLE", [None, ""]), ("VERSION", ["0.70", "0.81", "0.5", ""])):       # None: a key-only property (#ATTACKS;), which an SM file may hold for any key
         if rng.random() < 0.3:
             props.append([key, rng.choice(vals)])
     # keys the blank SSC template also has (so that template and source compete), with blank, whitespace-only and ordinary values
